@@ -2,11 +2,14 @@
 // usage: harness <scenario> <min> <max> <bound> [--replay picks]
 //
 // Scenario numbers: 0..11 thread pool scripts, 50+k = pool script k ended by the DESTRUCTOR instead of an explicit cleanup(),
-// 100..105 work thread scripts, 150+k = work thread script 100+k ended by the destructor only, 200/201 = pool / work thread on the REAL epoll loop.
+// 100..107 work thread scripts, 150+k = work thread script 100+k ended by the destructor only, 200..202 = pool / work thread on the REAL epoll loop.
+// 1000+s = scenario s with ObjectPool keep_number_ = 1 (both branches of ObjectPool::free run), 2000+s = scenario s with the task cabinet's id counter preset just below its wrap-around.
+// Task objects are de-pooled (keep_number_ = 0) in the ASan build only; the plain and TSan builds run the default recycling pool.
 // Every odd-numbered task is submitted through the `const NonReturnFunc &` overloads (named lvalue functors), every even one through `&&`.
 #include "sched/sched.h"
 #include "sched/explore.h"
 #include "sched/fake_loop.h"
+#include "probe.h"
 #include <tbox/eventx/thread_pool.cpp>     // included as source: gives access to ThreadPool::Data
 #include <tbox/eventx/work_thread.cpp>
 #include <condition_variable>
@@ -24,18 +27,25 @@ using eventx::ThreadPool; using eventx::WorkThread;
 #ifndef VERIF_TSAN
 #define VERIF_TSAN 0
 #endif
+VF_PROBE(all_threads_stop_flag) VF_PROBE(idle_thread_num) VF_PROBE(threads_cabinet) VF_PROBE(undo_tasks_cabinet) VF_PROBE(doing_tasks_token) VF_PROBE(stop_flag) VF_PROBE(undo_tasks_token_deque)
 namespace {
-const int MAXTASK = 5;
-enum { BODY_PLAIN = 0, BODY_GATE = 1, BODY_REENTRANT = 2 };
+const int MAXTASK = 8, REJ = MAXTASK - 1;      // slot REJ: submissions that must be refused
+enum { BODY_PLAIN = 0, BODY_GATE = 1, BODY_REENTRANT = 2, BODY_THROW = 3 };
+enum { CB_PLAIN = 0, CB_CHAIN = 1, CB_CLEANUP = 2 };       // what a completion callback does besides recording itself
 struct Rec { bool accepted = false, has_cb = false; int prio = 0; int started = 0, finished = 0, cb = 0; int start_thr = -1, cb_thr = -1; long fin_seq = 0, cb_seq = 0, start_seq = 0; int cancel_ret = -1; cabinet::Token tok;
   int epoch = 0;           // life cycle (initialize..cleanup) of the pool in which the task was accepted
   bool dropped = false;    // a cleanup() RETURNED while the body had not started: it must never start
   int batch = 0;           // >0: queued together with the other tasks of the batch while the only worker was blocked (total pick order is known)
-  int want_loop = 0, cb_loop = -1; };   // which loop the completion callback belongs to / was run by
+  int want_loop = 0, cb_loop = -1;
+  bool gone = false;          // a cleanup() returned after the task was accepted: nothing of it can be waiting or executing any more
+  bool claimed_exec = false;  // status said "executing" while the body had not started: it has to start
+  int refused = 0;
+  bool unordered = false; };  // submitted while another client thread was submitting too: the harness does not know which came first         // slot REJ: number of refused submissions   // which loop the completion callback belongs to / was run by
 Rec R[MAXTASK]; long g_seq = 0; int g_running = 0, g_max_running = 0;
 std::mutex *g_m; std::condition_variable *g_cv; bool g_gate_open = false;
 ThreadPool *g_tp = nullptr; WorkThread *g_wt = nullptr;
-int g_min = 0, g_max = 1, g_epoch = 0, g_cur_loop = -1;
+bool g_concurrent_clients = false;
+int g_min = 0, g_max = 1, g_epoch = 0, g_cur_loop = -1, g_next_cb = CB_PLAIN; unsigned g_waited_mask = 0;
 bool g_in_cleanup = false; cabinet::Token g_cancel_target; bool g_in_cancel = false;
 
 // The loop handed to the pool models the CONTRACT of the real Loop entry points (event/loop.h, CommonLoop::run): runInLoop() is the only entry a
@@ -44,10 +54,12 @@ bool g_in_cleanup = false; cabinet::Token g_cancel_target; bool g_in_cancel = fa
 // running - is a violation. (Late posts after cleanup() are counted in both runInLoop overloads.)
 struct Loop5 : FakeLoop {
   int id = 0; bool running = false;            // guarded by m
+  bool notify_posts = false; std::condition_variable cvq;      // only scripts that must wait for a post switch this on (a notify is a scheduling point)
+  void wait_posted() { std::unique_lock<std::mutex> lk(m); cvq.wait(lk, [this] { return !q.empty(); }); }
   std::vector<Func> nq; int nposted = 0;       // run-next queue: loop thread only, no lock - exactly as in CommonLoop
   bool isInLoopThread() override { return sched_self() == 0; }
-  RunId runInLoop(Func &&f, const std::string &) override { std::lock_guard<std::mutex> g(m); if (closed_for_workers && sched_self() != 0) late_worker_posts++; q.push_back(std::move(f)); return ++posted; }
-  RunId runInLoop(const Func &f, const std::string &) override { std::lock_guard<std::mutex> g(m); if (closed_for_workers && sched_self() != 0) late_worker_posts++; q.push_back(f); return ++posted; }
+  RunId runInLoop(Func &&f, const std::string &) override { std::lock_guard<std::mutex> g(m); if (closed_for_workers && sched_self() != 0) late_worker_posts++; q.push_back(std::move(f)); if (notify_posts) cvq.notify_all(); return ++posted; }
+  RunId runInLoop(const Func &f, const std::string &) override { std::lock_guard<std::mutex> g(m); if (closed_for_workers && sched_self() != 0) late_worker_posts++; q.push_back(f); if (notify_posts) cvq.notify_all(); return ++posted; }
   RunId runNext(Func &&f, const std::string &) override {
     if (sched_self() != 0) sched_fail("worker-used-a-loop-thread-only-entry-point: runNext() reached from thread %d (directly, or through run() while the loop was not running)", sched_self());
     nq.push_back(std::move(f)); return 1000000 + ++nposted; }
@@ -66,6 +78,8 @@ tbox::event::Loop *g_real = nullptr;     // scenarios 200+: the REAL epoll loop 
 void drain(Loop5 *l) { if (!l) return; g_cur_loop = l->id; l->drain5(); g_cur_loop = -1; }
 // one pass of the real loop on the main thread: a queued no-op makes it poll without sleeping; kOnce also drains the deferred calls on its way out
 void run_real_once() { if (!g_real) return; g_cur_loop = 0; g_real->runNext([] {}, "C05 no-op"); g_real->runLoop(tbox::event::Loop::Mode::kOnce); g_cur_loop = -1; }
+// the same without the no-op: the loop sleeps in epoll_wait until a worker's runInLoop() wakes it, runs what was handed in, and returns
+void run_real_blocking_once() { g_cur_loop = 0; g_real->runLoop(tbox::event::Loop::Mode::kOnce); g_cur_loop = -1; }
 void drain_all() { drain(g_loop); drain(g_loopB); run_real_once(); }
 
 int clamp_level(int prio) { if (prio < THREAD_POOL_PRIO_MIN) prio = THREAD_POOL_PRIO_MIN; if (prio > THREAD_POOL_PRIO_MAX) prio = THREAD_POOL_PRIO_MAX; return prio - THREAD_POOL_PRIO_MIN; }   // 0 = picked first ("the smaller, the higher")
@@ -100,14 +114,26 @@ uint32_t on_point() {
       if (at < last) sched_fail("fifo-order: the waiting tasks of one priority were reordered"); last = at; } }
   g_prev = cur; return 0;
 }
-void dump() {
-  if (g_tp) sched_note("DUMP pool: stop_flag=%d idle=%zu threads=%zu undo=%zu doing=%zu", (int)g_tp->d_->all_threads_stop_flag, g_tp->d_->idle_thread_num, g_tp->d_->threads_cabinet.size(), g_tp->d_->undo_tasks_cabinet.size(), g_tp->d_->doing_tasks_token.size());
-  if (g_wt && g_wt->d_) sched_note("DUMP workthread: stop_flag=%d undo=%zu doing=%zu", (int)g_wt->d_->stop_flag, g_wt->d_->undo_tasks_token_deque.size(), g_wt->d_->doing_tasks_token.size());
+void dump() {     // diagnostics only: read through probes, so a renamed field degrades the dump instead of breaking the build
+  if (g_tp) { auto &d = *g_tp->d_; sched_note("DUMP pool: stop_flag=%d idle=%d threads=%d undo=%d doing=%d", VF_GET(all_threads_stop_flag, d, -1), VF_GET(idle_thread_num, d, -1), VF_SIZE(threads_cabinet, d, -1), VF_SIZE(undo_tasks_cabinet, d, -1), VF_SIZE(doing_tasks_token, d, -1)); }
+  if (g_wt && g_wt->d_) { auto &d = *g_wt->d_; sched_note("DUMP workthread: stop_flag=%d undo=%d doing=%d", VF_GET(stop_flag, d, -1), VF_SIZE(undo_tasks_token_deque, d, -1), VF_SIZE(doing_tasks_token, d, -1)); }
   for (int i = 0; i < MAXTASK; i++) if (R[i].accepted) sched_note("DUMP task%d epoch=%d started=%d finished=%d cb=%d cancel=%d", i, R[i].epoch, R[i].started, R[i].finished, R[i].cb, R[i].cancel_ret);
 }
+// experiment set-up through private fields, guarded: if a field is renamed the run degrades (and says so) instead of not compiling
+template <class D> auto set_keep(D &d, size_t n, int) -> decltype((void)(d.task_pool.keep_number_ = n), true) { d.task_pool.keep_number_ = n; return true; }
+template <class D> bool set_keep(D &, size_t, long) { sched_note("O task_pool.keep_number_-unavailable"); return false; }
+template <class D> auto preset_id_wrap(D &d, int) -> decltype((void)(d.undo_tasks_cabinet.last_id_ = 0), true) { d.undo_tasks_cabinet.last_id_ = std::numeric_limits<decltype(d.undo_tasks_cabinet.last_id_)>::max() - 1; return true; }
+template <class D> bool preset_id_wrap(D &, long) { sched_note("O cabinet.last_id_-unavailable"); return false; }
+#if defined(__SANITIZE_ADDRESS__)
+const bool kDepool = true;      // a finished/cancelled/dropped Task is really freed, so ASan sees any later use
+#else
+const bool kDepool = false;     // the recycling pool as shipped: a recycled block must be a fresh Task
+#endif
+template <class D> void setup_data(D &d, int variant) { if (variant == 1) set_keep(d, 1, 0); else if (kDepool) set_keep(d, 0, 0); if (variant == 2) preset_id_wrap(d, 0); }
 
 void submit(int i, int prio, bool cb, int kind = BODY_PLAIN, Loop5 *explicit_loop = nullptr);
-void status(int i);
+int status(int i);
+void do_cleanup();
 
 std::function<void()> body_of(int i, int kind) {
   return [i, kind] {
@@ -115,47 +141,67 @@ std::function<void()> body_of(int i, int kind) {
     if (kind == BODY_GATE) { std::unique_lock<std::mutex> lk(*g_m); g_cv->wait(lk, [] { return g_gate_open; }); }     // keeps its worker busy until the script opens the gate
     if (kind == BODY_REENTRANT) { submit(i + 1, 0, true); status(i + 1); }                                           // the pool is used from inside a task body (worker thread)
     { std::lock_guard<std::mutex> g(*g_m); R[i].finished++; R[i].fin_seq = ++g_seq; g_running--; g_cv->notify_all(); }
+    if (kind == BODY_THROW) throw 1;      // the body has done its work and leaves by an exception: the worker must survive, finish its bookkeeping and hand the callback over
   };
 }
-std::function<void()> cb_of(int i) { return [i] { R[i].cb++; R[i].cb_thr = sched_self(); R[i].cb_seq = ++g_seq; R[i].cb_loop = g_cur_loop; }; }
+std::function<void()> cb_of(int i, int kind = CB_PLAIN) { return [i, kind] { R[i].cb++; R[i].cb_thr = sched_self(); R[i].cb_seq = ++g_seq; R[i].cb_loop = g_cur_loop;
+  if (kind == CB_CHAIN) { int keep = g_cur_loop; submit(i + 1, 0, true); status(i + 1); g_cur_loop = keep; }      // the usual idiom: the next task is chained from the completion callback (loop thread, loop draining)
+  if (kind == CB_CLEANUP) do_cleanup(); }; }                                                                       // ... or the pool is shut down from it
 
 void submit(int i, int prio, bool cb, int kind, Loop5 *explicit_loop) {
   R[i].prio = prio; R[i].has_cb = cb; R[i].epoch = g_epoch; R[i].want_loop = explicit_loop ? explicit_loop->id : 0;
+  int cbk = g_next_cb; g_next_cb = CB_PLAIN; R[i].unordered = g_concurrent_clients;
   if (i & 1) {       // `const &` overloads
-    const std::function<void()> body = body_of(i, kind), done = cb_of(i);
+    const std::function<void()> body = body_of(i, kind), done = cb_of(i, cbk);
     if (g_tp) R[i].tok = cb ? g_tp->execute(body, done, prio) : g_tp->execute(body, prio);
     else if (explicit_loop) R[i].tok = g_wt->execute(body, done, explicit_loop);
     else R[i].tok = cb ? g_wt->execute(body, done) : g_wt->execute(body);
   } else {           // `&&` overloads
-    if (g_tp) R[i].tok = cb ? g_tp->execute(body_of(i, kind), cb_of(i), prio) : g_tp->execute(body_of(i, kind), prio);
-    else if (explicit_loop) R[i].tok = g_wt->execute(body_of(i, kind), cb_of(i), explicit_loop);
-    else R[i].tok = cb ? g_wt->execute(body_of(i, kind), cb_of(i)) : g_wt->execute(body_of(i, kind));
+    if (g_tp) R[i].tok = cb ? g_tp->execute(body_of(i, kind), cb_of(i, cbk), prio) : g_tp->execute(body_of(i, kind), prio);
+    else if (explicit_loop) R[i].tok = g_wt->execute(body_of(i, kind), cb_of(i, cbk), explicit_loop);
+    else R[i].tok = cb ? g_wt->execute(body_of(i, kind), cb_of(i, cbk)) : g_wt->execute(body_of(i, kind));
   }
   R[i].accepted = !R[i].tok.isNull();
   if (!R[i].accepted) sched_fail("execute-rejected task %d", i);
 }
-void status(int i) {
-  int started_before; { std::lock_guard<std::mutex> g(*g_m); started_before = R[i].started; }
+// an object that is not ready (not yet initialised, or cleaned up) must refuse the task - a null token - and the body must never start
+void submit_refused(const char *when) {
+  cabinet::Token t = g_tp ? g_tp->execute(body_of(REJ, BODY_PLAIN), cb_of(REJ), 0) : g_wt->execute(body_of(REJ, BODY_PLAIN), cb_of(REJ));
+  sched_note("O refused(%s)=%d", when, (int)t.isNull());
+  if (!t.isNull()) sched_fail("execute-accepted-a-task-although-the-object-is-not-ready (%s)", when);
+  R[REJ].refused++;
+}
+int status(int i) {
+  int started_before, exec_before; { std::lock_guard<std::mutex> g(*g_m); started_before = R[i].started; exec_before = R[i].started > R[i].finished; }
   int st = g_tp ? (int)g_tp->getTaskStatus(R[i].tok) : (int)g_wt->getTaskStatus(R[i].tok);
-  int started_now; { std::lock_guard<std::mutex> g(*g_m); started_now = R[i].started; }
+  int started_now, finished_now; { std::lock_guard<std::mutex> g(*g_m); started_now = R[i].started; finished_now = R[i].finished; }
   sched_note("O status%d=%d", i, st);
+  // the body was running before the question and is still running after the answer: "executing" is the only answer that agrees with history
+  if (exec_before && !finished_now && st != 1) sched_fail("status-%d-while-the-body-was-executing task %d", st, i);
+  if (st == 1 && !started_now) R[i].claimed_exec = true;      // picked but not started yet: it has to start
   // the other direction: a task whose body had already started before the question was asked is not "waiting" any more
   if (st == 0 && started_before > 0) sched_fail("status-waiting-but-already-started task %d", i);
   // a task that a completed cleanup() dropped is never going to run: neither "waiting" nor "executing" agrees with that history
   if (st != 2 && R[i].dropped) sched_fail("status-%d-for-a-task-dropped-by-cleanup task %d", st, i);
+  if (st != 2 && R[i].gone) sched_fail("status-%d-for-a-task-of-a-life-cycle-that-cleanup-ended task %d", st, i);
   // kNotFound can only be a correct answer for a task that has already been started (or was cancelled):
   if (st == 2 && started_now == 0 && R[i].cancel_ret != 0 && !R[i].dropped) {
     // it must never start later; we wait for it below (wait_task) - remember the claim
     sched_note("claim-notfound %d", i);
     R[i].cancel_ret = -2;   // marker: answered not-found while not started
   }
+  return st;
 }
 int cancel(int i) {
+  int exec_before; { std::lock_guard<std::mutex> g(*g_m); exec_before = R[i].started > R[i].finished; }
   g_cancel_target = R[i].tok; g_in_cancel = true;
   int r = g_tp ? g_tp->cancel(R[i].tok) : g_wt->cancel(R[i].tok);
   g_in_cancel = false;
-  int started_now; { std::lock_guard<std::mutex> g(*g_m); started_now = R[i].started; }
+  int started_now, finished_now; { std::lock_guard<std::mutex> g(*g_m); started_now = R[i].started; finished_now = R[i].finished; }
   sched_note("O cancel%d=%d", i, r);
+  if (exec_before && !finished_now && r != 2) sched_fail("cancel-%d-while-the-body-was-executing task %d", r, i);
+  // nothing of an ended life cycle is waiting or executing: "not found" (work thread after cleanup: 3, "cleaned up") is the only answer that agrees
+  if (R[i].gone && !(r == 1 || (g_wt && r == 3))) sched_fail("cancel-%d-for-a-task-of-a-life-cycle-that-cleanup-ended task %d", r, i);
   if (r == 0) R[i].cancel_ret = 0;
   else if (r == 1 && started_now == 0 && !R[i].dropped) R[i].cancel_ret = -3;   // "not found (already executed)" for a task that has not started
   else R[i].cancel_ret = r;
@@ -165,6 +211,15 @@ void wait_task(int i) {     // blocks (scheduler-visible) until task i has finis
   if (R[i].cancel_ret == 0) return;
   std::unique_lock<std::mutex> lk(*g_m); g_cv->wait(lk, [i] { return R[i].finished > 0; });
 }
+void expect_status(int i, int want, const char *why) { int st = status(i); if (st != want) sched_fail("status-%d-expected-%d task %d (%s)", st, want, i, why); }
+void expect_cancel(int i, int want, const char *why) { int r = cancel(i); if (r != want) sched_fail("cancel-%d-expected-%d task %d (%s)", r, want, i, why); }
+// single worker and a LATER task has run: the worker (or its predecessor) is done with task i, "not found" is the only answer that agrees with history
+void late_check(int i) {
+  if (g_max != 1) return;
+  int st = g_tp ? (int)g_tp->getTaskStatus(R[i].tok) : (int)g_wt->getTaskStatus(R[i].tok), c = g_tp ? g_tp->cancel(R[i].tok) : g_wt->cancel(R[i].tok); sched_note("O late-status%d=%d late-cancel%d=%d", i, st, i, c);
+  if (st != 2 || c != 1) sched_fail("finished task %d is reported status=%d cancel=%d after a later task ran on the only worker", i, st, c);
+}
+void mark_waited() { g_waited_mask |= 1u << g_epoch; }
 void wait_started(int i) { std::unique_lock<std::mutex> lk(*g_m); g_cv->wait(lk, [i] { return R[i].started > 0; }); }
 void open_gate() { std::lock_guard<std::mutex> g(*g_m); g_gate_open = true; g_cv->notify_all(); }
 void snapshot_check() {
@@ -180,7 +235,8 @@ void cleanup_returned(const char *how) {
   std::lock_guard<std::mutex> g(*g_m);
   for (int i = 0; i < MAXTASK; i++) if (R[i].accepted) {
     if (R[i].started > R[i].finished) sched_fail("%s returned while the body of task %d was still running", how, i);
-    if (!R[i].started) R[i].dropped = true; }
+    if (!R[i].started) R[i].dropped = true;
+    R[i].gone = true; }
 }
 void do_cleanup() { cleanup_begins(); if (g_tp) g_tp->cleanup(); else if (g_wt) g_wt->cleanup(); cleanup_returned("cleanup()"); }
 void all_joined(const char *when) { drain_all(); int n = sched_unfinished_others(); if (n) sched_fail("%d worker thread(s) still alive %s", n, when); }
@@ -188,6 +244,8 @@ void reopen() { g_in_cleanup = false; g_loop->closed_for_workers = false; if (g_
 
 void final_oracle(int waited_epoch) {      // waited_epoch: the life cycle whose tasks the script waited for (-1: none)
   all_joined("after cleanup returned and the loop was drained");
+  if (waited_epoch >= 0) g_waited_mask |= 1u << waited_epoch;
+  if (R[REJ].started || R[REJ].cb) sched_fail("a task that was refused (null token) ran: started=%d callback=%d", R[REJ].started, R[REJ].cb);
   for (int i = 0; i < MAXTASK; i++) { Rec &r = R[i]; if (!r.accepted) continue;
     if (r.started > 1 || r.finished > 1) sched_fail("task %d executed %d times", i, r.started);
     if (r.started && r.start_thr == 0) sched_fail("task %d body ran on the loop thread", i);
@@ -196,7 +254,9 @@ void final_oracle(int waited_epoch) {      // waited_epoch: the life cycle whose
     if (r.cancel_ret == -2 && r.started) sched_fail("status-notfound-but-ran-later task %d", i);
     if (r.cancel_ret == -3 && r.started) sched_fail("cancel-notfound-but-ran-later task %d", i);
     if (r.cancel_ret == 2 && !r.started) sched_fail("cancel-said-executing-but-never-ran task %d", i);
-    if (r.epoch == waited_epoch && r.cancel_ret != 0 && r.finished != 1) sched_fail("task %d accepted, not cancelled, cleanup not begun, but executed %d times", i, r.finished);
+    if (r.claimed_exec && !r.started) sched_fail("status-said-executing-but-never-started task %d", i);
+    for (int j = 0; j < i; j++) if (R[j].accepted && R[j].tok == r.tok) sched_fail("tasks %d and %d were given the same token", j, i);
+    if (((g_waited_mask >> r.epoch) & 1) && r.cancel_ret != 0 && r.finished != 1) sched_fail("task %d accepted, not cancelled, cleanup not begun, but executed %d times", i, r.finished);
     if (r.cb > 1) sched_fail("completion callback of task %d ran %d times", i, r.cb);
     if (r.cb && !r.finished) sched_fail("completion callback of task %d ran although the body did not finish", i);
     if (r.cb && r.cb_thr != 0) sched_fail("completion callback of task %d ran on a worker thread", i);
@@ -207,7 +267,7 @@ void final_oracle(int waited_epoch) {      // waited_epoch: the life cycle whose
     sched_note("O t%d:s%d,f%d,c%d", i, r.started, r.finished, r.cb);
   }
   // with a single worker the body start order IS the pick order: same priority => submission order (tasks are numbered in submission order)
-  if (g_max == 1) for (int i = 0; i < MAXTASK; i++) for (int j = i + 1; j < MAXTASK; j++) if (R[i].started && R[j].started && R[i].epoch == R[j].epoch && R[i].prio == R[j].prio && R[i].start_seq > R[j].start_seq) sched_fail("fifo-order: task %d (same priority, submitted earlier) started after task %d", i, j);
+  if (g_max == 1) for (int i = 0; i < MAXTASK; i++) for (int j = i + 1; j < MAXTASK; j++) if (R[i].started && R[j].started && R[i].epoch == R[j].epoch && R[i].prio == R[j].prio && !(R[i].unordered && R[j].unordered) && R[i].start_seq > R[j].start_seq) sched_fail("fifo-order: task %d (same priority, submitted earlier) started after task %d", i, j);
   // tasks of one batch were all waiting while the only worker was busy: they start by priority (smaller first), then in submission order
   if (g_max == 1) for (int i = 0; i < MAXTASK; i++) for (int j = 0; j < MAXTASK; j++) if (i != j && R[i].batch && R[i].batch == R[j].batch && R[i].started && R[j].started) {
     bool i_first = clamp_level(R[i].prio) < clamp_level(R[j].prio) || (clamp_level(R[i].prio) == clamp_level(R[j].prio) && i < j);
@@ -227,26 +287,45 @@ int pool_script(int scen, ThreadPool &tp, Loop5 &loop) {
     case 3: submit(0, 0, true); wait_task(0); drain(&loop); submit(1, 0, true);                   // worker retirement, then a new worker (task 1 re-uses the cabinet slot of task 0)
             status(0); cancel(0);                                                                 // the stale token of the finished task: answers must not alias task 1
             wait_task(1); waited = g_epoch;
-            if (g_max == 1) {   // single worker and task 1 has run: the worker (or its predecessor) is done with task 0, "not found" is the only answer that agrees with history
-              int st = (int)tp.getTaskStatus(R[0].tok), c = tp.cancel(R[0].tok); sched_note("O late-status0=%d late-cancel0=%d", st, c);
-              if (st != 2 || c != 1) sched_fail("finished task 0 is reported status=%d cancel=%d after a later task ran on the only worker", st, c); }
+            late_check(0);
             break;
     case 4: submit(0, 1, false); submit(1, 0, false); status(1); cancel(0); break;                      // cancel/status racing with the pick, then cleanup
-    case 5: do_cleanup(); all_joined("after the first cleanup"); reopen(); if (!tp.initialize(g_min, g_max)) sched_fail("re-initialize failed"); submit(0, 0, true); wait_task(0); waited = g_epoch; break;   // cleanup then re-initialise
+    case 5: do_cleanup(); all_joined("after the first cleanup"); submit_refused("after cleanup"); reopen(); if (!tp.initialize(g_min, g_max)) sched_fail("re-initialize failed"); submit(0, 0, true); wait_task(0); waited = g_epoch; break;   // cleanup then re-initialise
     case 6: submit(0, 0, false); submit(1, -1, false); submit(2, 0, false); break;                // queue then cleanup: pending tasks dropped, never run twice
     case 7: submit(0, 0, false); submit(1, 0, false); submit(2, 0, false); submit(3, 0, false); cancel(1); wait_task(0); wait_task(1); wait_task(2); wait_task(3); waited = g_epoch; break;   // three same-priority waiters, cancel in the middle
     case 8: {   // life cycles: initialize on a ready pool, cleanup with queued/executing work, re-initialise with FEWER resident workers (the default min 0), stale tokens
       bool again = tp.initialize(g_min, g_max); sched_note("O init-while-ready=%d", (int)again);
       snapshot_check(); if (g_min == g_max && sched_unfinished_others() > g_max) sched_fail("%d workers alive after a second initialize(), max is %d", sched_unfinished_others(), g_max);
       submit(0, 2, true); submit(1, -2, false);      // lowest and highest priority level: cleanup must empty every queue
-      do_cleanup(); all_joined("after the first cleanup"); reopen();
+      do_cleanup(); all_joined("after the first cleanup"); submit_refused("after cleanup"); reopen();
       if (!tp.initialize(0, g_max)) sched_fail("re-initialize failed");
-      submit(2, 0, true); status(1); status(0); wait_task(2); waited = g_epoch; snapshot_check(); break; }
+      submit(2, 0, true); status(1); status(0); cancel(0); cancel(1);      // tokens of the ended life cycle: answers are pinned in status()/cancel(), and they must not hit task 2
+      wait_task(2); waited = g_epoch; snapshot_check(); break; }
+    case 9:    // second cleanup() in a row, refused submission in between, three life cycles on one object
+      submit(0, 0, true); wait_task(0); mark_waited();
+      do_cleanup(); do_cleanup(); all_joined("after the first cleanup"); submit_refused("after two cleanups"); reopen();
+      if (!tp.initialize(0, g_max)) sched_fail("re-initialize failed"); submit(1, 0, false); wait_task(1); mark_waited();
+      do_cleanup(); all_joined("after the second life cycle"); reopen();
+      if (!tp.initialize(g_min, g_max)) sched_fail("third initialize failed"); submit(2, -1, true); status(0); cancel(1); wait_task(2); waited = g_epoch; break;
     case 10: submit(0, 0, true, BODY_REENTRANT); wait_task(0); wait_task(1); waited = g_epoch; break;   // body 0 submits task 1 and asks for its status from the worker
-    case 11:   // gate: the only worker is held inside task 0 while four tasks with boundary / out-of-range priorities queue up; both the clamped and the raw reading give -9,-2,2,7
+    case 11:   // gate: the only worker is held inside task 0 while six tasks with boundary / out-of-range priorities queue up; both the clamped and the raw reading give -9,-2,2,7.
+               // While the gate is closed history is fully known, so every answer is pinned: task 0 executing, the others waiting, cancel of a waiter succeeds (both boundary levels).
       submit(0, 0, false, BODY_GATE); wait_started(0);
-      submit(1, 2, false); submit(2, 7, true); submit(3, -9, false); submit(4, -2, true); for (int i = 1; i <= 4; i++) R[i].batch = 1;
-      open_gate(); for (int i = 0; i <= 4; i++) wait_task(i); waited = g_epoch; break;
+      submit(1, 2, false); submit(2, 7, true); submit(3, -9, false); submit(4, -2, true); submit(5, 2, false); submit(6, -2, true); for (int i = 1; i <= 6; i++) R[i].batch = 1;
+      expect_status(0, 1, "body is blocked in the gate"); expect_cancel(0, 2, "body is blocked in the gate");
+      for (int i = 1; i <= 6; i++) expect_status(i, 0, "the only worker is busy");
+      expect_cancel(5, 0, "waiting at the lowest priority level"); expect_cancel(6, 0, "waiting at the highest priority level");
+      open_gate(); for (int i = 0; i <= 6; i++) wait_task(i); waited = g_epoch; break;
+    case 12:   // two client threads at once: body 0 (a worker) submits and queries task 1 while the main thread submits, cancels and takes a snapshot
+      g_concurrent_clients = true; submit(0, 0, true, BODY_REENTRANT); submit(2, 0, false); cancel(2); snapshot_check(); wait_task(0); wait_task(1); wait_task(2); waited = g_epoch; break;
+    case 13:   // a body that throws: the worker survives, the next task runs, the thrower's token is forgotten, its callback comes at most once
+      submit(0, 0, true, BODY_THROW); submit(1, 0, true); wait_task(0); wait_task(1); waited = g_epoch; late_check(0); break;
+    case 14:   // the completion callback of task 0 (loop thread, while the loop drains) submits task 1 and asks for its status
+      loop.notify_posts = true; g_next_cb = CB_CHAIN; submit(0, 0, true); wait_task(0);
+      while (!R[0].cb) { loop.wait_posted(); drain(&loop); }      // blocks until a worker has handed something in; a callback that never comes is a deadlock wait_task(1); waited = g_epoch; break;
+    case 15:   // the completion callback of task 0 calls cleanup() while task 1 is waiting / executing / done
+      loop.notify_posts = true; g_next_cb = CB_CLEANUP; submit(0, 0, true); submit(1, 0, true); wait_task(0);
+      while (!R[0].cb) { loop.wait_posted(); drain(&loop); }      // blocks until a worker has handed something in; a callback that never comes is a deadlock break;
     default: sched_fail("no such pool script %d", scen);
   }
   return waited;
@@ -260,12 +339,16 @@ int wt_script(int scen, Loop5 &loopB) {
     case 103: submit(0, 0, true, BODY_PLAIN, &loopB); submit(1, 0, true); submit(2, 0, true, BODY_PLAIN, &loopB); submit(3, 0, true, BODY_PLAIN, &loopB); cancel(2); wait_task(0); wait_task(1); wait_task(2); wait_task(3); waited = g_epoch; break;   // explicit per-task loop next to the default loop
     case 104: submit(0, 0, true, BODY_REENTRANT); wait_task(0); wait_task(1); waited = g_epoch; break;   // body 0 submits task 1 from the worker
     case 105: submit(0, 0, true, BODY_PLAIN, &loopB); submit(1, 0, false); wait_task(1); waited = g_epoch; break;   // no default loop at all: the explicit loop gets the callback
+    case 106: submit(0, 0, true, BODY_THROW); submit(1, 0, true); wait_task(0); wait_task(1); waited = g_epoch; late_check(0); break;   // a body that throws
+    case 107:   // operations on a work thread that has been cleaned up: refused submission, status / cancel of its old tokens, a second cleanup()
+      submit(0, 0, true); submit(1, 0, false); do_cleanup(); all_joined("after cleanup"); submit_refused("after cleanup"); status(0); status(1); cancel(1); cancel(0); do_cleanup(); break;
     default: sched_fail("no such work thread script %d", scen);
   }
   return waited;
 }
 
 void scenario(int scen) {
+  int variant = scen / 1000; scen %= 1000;      // 1: keep_number_ = 1, 2: cabinet id counter about to wrap
   std::mutex m; std::condition_variable cv; g_m = &m; g_cv = &cv;
   Loop5 loop, loopB; loop.id = 0; loopB.id = 1; g_loop = &loop;
   sched_on_deadlock(dump);
@@ -276,8 +359,8 @@ void scenario(int scen) {
   if (scen < 100) {
     bool dtor_only = scen >= 50; int script = dtor_only ? scen - 50 : scen;
     ThreadPool *tp = new ThreadPool(&loop); g_tp = tp;
-    tp->d_->task_pool.keep_number_ = 0;      // de-pool: a finished/cancelled/dropped Task is really freed, so ASan sees any later use
-    if (script == 8) {   // arguments outside the documented domain must not start workers (max 0, min > max, negative)
+    setup_data(*tp->d_, variant);
+    if (script == 8) { submit_refused("before initialize");   // arguments outside the documented domain must not start workers (max 0, min > max, negative)
       bool a = tp->initialize(2, 1), b = tp->initialize(0, 0), c = tp->initialize(-1, 1); sched_note("O invalid-init=%d%d%d", (int)a, (int)b, (int)c);
       if (sched_unfinished_others()) sched_fail("initialize() with invalid arguments started %d worker(s)", sched_unfinished_others()); }
     if (!tp->initialize(g_min, g_max)) sched_fail("initialize failed");
@@ -290,12 +373,18 @@ void scenario(int scen) {
     // completion callbacks over; the main thread then enters the loop while a worker may still be at it, cleans up, and runs the loop again.
     tbox::event::Loop *rl = tbox::event::Loop::New("epoll"); if (!rl) sched_fail("no epoll loop"); g_real = rl;
     if (scen == 200) {
-      ThreadPool *tp = new ThreadPool(rl); g_tp = tp; tp->d_->task_pool.keep_number_ = 0;
+      ThreadPool *tp = new ThreadPool(rl); g_tp = tp; setup_data(*tp->d_, variant);
       if (!tp->initialize(g_min, g_max)) sched_fail("initialize failed");
       submit(0, 0, true); submit(1, 0, true); wait_task(0); wait_task(1); waited = g_epoch;
       run_real_once(); do_cleanup(); final_oracle(waited); g_tp = nullptr; delete tp;
+    } else if (scen == 202) {   // the callback of task 0, run by the real loop (which first sleeps until the worker's runInLoop() wakes it), submits task 1 and asks for its status
+      ThreadPool *tp = new ThreadPool(rl); g_tp = tp; setup_data(*tp->d_, variant);
+      if (!tp->initialize(g_min, g_max)) sched_fail("initialize failed");
+      g_next_cb = CB_CHAIN; submit(0, 0, true); wait_task(0); run_real_blocking_once();
+      if (!R[0].cb) sched_fail("the real loop woke up and returned without running the completion callback of task 0"); wait_task(1); waited = g_epoch;
+      run_real_once(); do_cleanup(); final_oracle(waited); g_tp = nullptr; delete tp;
     } else {
-      WorkThread *wt = new WorkThread(rl); g_wt = wt; wt->d_->task_pool.keep_number_ = 0;
+      WorkThread *wt = new WorkThread(rl); g_wt = wt; setup_data(*wt->d_, variant);
       submit(0, 0, true); submit(1, 0, true); wait_task(0); wait_task(1); waited = g_epoch;
       run_real_once(); do_cleanup(); g_wt = nullptr; delete wt; final_oracle(waited);
     }
@@ -304,7 +393,7 @@ void scenario(int scen) {
     bool dtor_only = scen >= 150; int script = dtor_only ? scen - 50 : scen;
     if (script == 103 || script == 105) g_loopB = &loopB;
     WorkThread *wt = new WorkThread(script == 105 ? nullptr : &loop); g_wt = wt;
-    wt->d_->task_pool.keep_number_ = 0;
+    setup_data(*wt->d_, variant);
     waited = wt_script(script, loopB);
     if (dtor_only) { cleanup_begins(); sched_on_point(nullptr); delete wt; g_wt = nullptr; cleanup_returned("the destructor"); }
     else { do_cleanup(); g_wt = nullptr; delete wt; }
